@@ -33,13 +33,18 @@ NAMES = ['a.txt', 'b.bin', 'empty', 'noext', 'sp ace.txt', 'dotted.name.tar.gz',
          'nb\u00a0sp.txt', 'wide\u3000space.txt', 'fam\U0001f468\u200d\U0001f469.txt', 'soft\u00adhyphen.txt', 'rtl\u200fmark.txt',
          'tab\there.txt', 'del\x7f.txt', 'plus+and%25.txt', 'hash#tag.txt', 'semi;colon=eq.txt', 'back\\slash.txt', 'amp&ersand.txt',
          'CJK\u4e2d\u6587.txt', 'combining-e\u0301.txt']
-DIRS = ['', '', 'sub', 'sub/deep', 'other', '.dotdir', 'sub/..weird']
+DIRS = ['', '', 'sub', 'sub/deep', 'other', '.dotdir', 'sub/..weird',
+        # nested directories with longish names: no component is long, the relative path as a whole is (> 255, > 1024 characters)
+        '/'.join(['nested-directory-%d-' % i + 'n' * 48 for i in range(4)]), '/'.join(['deep%02d-' % i + 'd' * 90 for i in range(11)])]
 MAX_CALLS = 16
 SECRETS = {'above': 'SECRET-ABOVE-4f1c9a', 'beside': 'SECRET-BESIDE-77e2b0', 'sibling': 'SECRET-SIBLING-a91d33'}
 
 
 def content_for(root, rel, kind, gen=0):
-    head = ('FILE[%s|%s|g%d]' % (root, rel, gen)).encode('utf8')
+    import hashlib
+    # (a long relative path is named by its hash: the content's nature must show within the first block of the file)
+    shown = rel if len(rel) < 200 else 'sha1:' + hashlib.sha1(rel.encode('utf8')).hexdigest()
+    head = ('FILE[%s|%s|g%d]' % (root, shown, gen)).encode('utf8')
     if kind == 'empty':
         return b''
     if kind == 'bin':
@@ -208,7 +213,7 @@ class C14(Check):
                   'sampled by seed.')
     level_note = ('Trusted: the harness model of the tree, mimetypes.guess_type as the definition of "guessed '
                   'Content-Type". Confinement is judged by the kernel, not a path model.')
-    required_probes = ('server-zone-with-daylight-saving', 'server-zone-not-utc', 'fault-harmless-served', 'fallthrough-to-second-app', 'conditional-304', 'escape-refused',
+    required_probes = ('conditional-and-plain-request-at-the-same-time', 'server-zone-with-daylight-saving', 'server-zone-not-utc', 'fault-harmless-served', 'fallthrough-to-second-app', 'conditional-304', 'escape-refused',
                        'read-error-after-start')
 
     # ---- generation --------------------------------------------------------
@@ -344,6 +349,17 @@ class C14(Check):
                 ops.append({'op': 'touch', 'root': r, 'rel': f['rel'], 'gen': ops_rng.randint(1, 9),
                             'dt': ops_rng.choice([1, 2, 60, 86400])})
                 continue
+            if ops_rng.random() < 0.08:
+                # two clients at the same time: one revalidates (If-Modified-Since = the file's date), one fetches
+                sch = S['sched']
+                rels = sorted(set(f['rel'] for fs in cfg['roots'].values() for f in fs
+                                  if clean_rel(f['rel']) and not any(seg.startswith('.') for seg in f['rel'].split('/')))) or ['a.txt']
+                gran = sch.choice(['line', 'line', 'ins'])
+                hi = 160 if gran == 'line' else 900
+                ops.append({'op': 'conc', 'rels': [ops_rng.choice(rels), ops_rng.choice(rels)], 'granularity': gran,
+                            'order': sch.choice([['A', 'B'], ['B', 'A']]),
+                            'preempts': sorted([sch.randint(1, hi), sch.choice(['demote', 'A', 'B'])] for _ in range(sch.randint(1, 6)))})
+                continue
             target, _ = self.gen_target(ops_rng, cfg)
             op = {'op': 'get', 'target': target, 'method': ops_rng.choice(['GET'] * 5 + ['HEAD']),
                   'ims': ops_rng.choice([None, None, None, 'echo', 'echo', 'before', 'after', 'garbage']),
@@ -422,6 +438,11 @@ class C14(Check):
                     if op['op'] == 'touch':
                         self.do_touch(w, op, res)
                         continue
+                    if op['op'] == 'conc':
+                        self.do_conc(w, app, seam, op, step, res)
+                        if res.violations:
+                            break
+                        continue
                     self.do_get(w, app, seam, op, step, res, last_modified)
                     if op['faults'] or res.violations:
                         # recovery: the same request, fault-free, right away
@@ -435,6 +456,47 @@ class C14(Check):
         res.steps = len(plan['ops'])
         res.sim_time = 0.0
         return res
+
+    def do_conc(self, w, app, seam, op, step, res):
+        """A: conditional GET carrying exactly the file's date (-> 304, no body); B: plain GET (-> 200, the bytes).
+        Served at the same time on two threads; no filesystem faults."""
+        from sim.core.sched import BatonScheduler
+        from sim.core import runner
+        watch = (os.path.join(runner.REPO, 'clastic') + os.sep, '<sinter')
+        cfg = w.cfg
+        prefix = cfg['prefix'] if cfg['prefix'].endswith('/') else cfg['prefix'] + '/'
+        plan = []
+        for name, rel, conditional in (('A', op['rels'][0], True), ('B', op['rels'][1], False)):
+            cands = w.lookup(rel)
+            if not cands or cands[0][2].get('oddtime') or cands[0][2]['mtime'] is None:
+                return          # nothing to say about this pair
+            e = cands[0][2]
+            hdr = {'If-Modified-Since': http_date(round(e['mtime']))} if conditional else {}
+            plan.append((name, rel, e, conditional, make_environ('GET', prefix + quote(rel), headers=hdr)))
+        got = {}
+        seam.begin()
+        tasks = dict((name, (lambda name=name, env=env: got.__setitem__(name, call_app(app, env, validate=False)))) for name, _, _, _, env in plan)
+        sched = BatonScheduler(op.get('order', ['A', 'B']), op.get('preempts', []), op.get('granularity', 'line'), watch)
+        sched.run(tasks)
+        seam.begin()
+        res.fire('preempt', len(sched.switches))
+        res.probe('conditional-and-plain-request-at-the-same-time')
+        res.nontrivial = True
+        res.ev(step, 'conc', op['rels'], 'switches', len(sched.switches), [got[n].code if n in got else None for n in ('A', 'B')])
+        if sched.errors:
+            res.violate('C14/concurrent/thread-raised:%s' % type(list(sched.errors.values())[0]).__name__, '%r' % (sched.errors,))
+            return
+        for name, rel, e, conditional, env in plan:
+            ex = got[name]
+            ctx = 'step %d concurrent %s GET %s%s (the other: %s)' % (step, name, prefix, rel, [p[1] for p in plan if p[0] != name])
+            if ex.escaped is not None:
+                return res.violate('C14/concurrent/exception-escaped:%s' % type(ex.escaped).__name__, ctx + ' -> %r' % (ex.escaped,))
+            if conditional:
+                if ex.code != 304 or ex.body:
+                    return res.violate('C14/concurrent/conditional-not-304', ctx + ' carried the file\'s own date -> %s with %d body bytes' % (ex.status, len(ex.body)))
+            else:
+                if ex.code != 200 or ex.body != e['data']:
+                    return res.violate('C14/concurrent/plain-not-served', ctx + ' -> %s, %d bytes (file has %d)' % (ex.status, len(ex.body), len(e['data'])))
 
     def do_touch(self, w, op, res):
         e = w.model.get(op['root'], {}).get(op['rel'])
